@@ -211,9 +211,45 @@ def r2(ctx):
                 'PolygonSkyRegion with 3 vertices == PolygonSkyRegion with 4 vertices raises ValueError (shape mismatch) instead '
                 'of returning False', eq.loc())
     ne = method_or_fail(ctx, reg, '__ne__')
-    if norm(ne.node.body[-1]).replace(' ', '') in ('returnnot(self==other)', 'returnnotself==other',
-                                                      'returnnotself.__eq__(other)'):
-        ctx.ok('Region.__ne__', 'negation of __eq__')
+    # decided on the value: with the outcome of == given (an opaque truth value E), != must be `not E`
+    evn = evaluator(ctx)
+    E_ = App('EQ_OUTCOME', ())
+    evn.hooks[eq.qualname] = lambda e, a, k: E_
+    cin = m.cls('CirclePixelRegion')
+    on = Obj(cin.name, {}, 'other', cin)
+    outn = evn.run(ne, [evn.symbolic_instance(cin), on], {})
+    okn = not outn.raises and bool(outn.returns)
+
+    def _tv(t, val):
+        from ..vg import BoolT as _B
+        if isinstance(t, Const):
+            return bool(t.v)
+        if same(t, E_):
+            return val
+        if isinstance(t, Cmp) and t.op in ('==', '!=') and {getattr(t.lhs, 'path', None), getattr(t.rhs, 'path', None)} == {'self', 'other'}:
+            return val if t.op == '==' else not val     # self == other / other == self: the outcome of ==
+        if isinstance(t, _B) and t.op == 'not':
+            return not _tv(t.args[0], val)
+        if isinstance(t, _B) and t.op == 'truthy':
+            return _tv(t.args[0], val)
+        if isinstance(t, _B) and t.op in ('and', 'or'):
+            vs = [_tv(a_, val) for a_ in t.args]
+            return all(vs) if t.op == 'and' else any(vs)
+        raise ValueError(show(t, 120))
+    if okn:
+      try:
+        for val in (True, False):
+            got = None
+            for pc_, v_ in outn.returns:
+                if all(_tv(truthy(c_), val) for c_ in pc_):
+                    got = _tv(truthy(v_), val)
+                    break
+            if got is not (not val):
+                okn = False
+      except ValueError:
+        okn = False          # depends on something else than the outcome of ==
+    if okn:
+        ctx.ok('Region.__ne__', 'negation of __eq__ (decided on the value, with the outcome of == given)')
     else:
         ctx.bad('Region.__ne__', 'negation', '__ne__ is not `not (self == other)`', ne.loc())
 
